@@ -1159,3 +1159,55 @@ func isExpectedPkg(path string) bool {
 	}
 	return false
 }
+
+// valueHelpers: repository functions that only compute values from their arguments through pure library calls (strings.*,
+// path/filepath.*, fmt.Sprintf, ...): loop-free, no stores, sends, map updates, go/defer.  A file-name test shared by the
+// loader and the watcher (`tomlFileName(name) (lowered string, isConfig bool)`) is one; path rules inline them so that the
+// conditions they test are seen where the helper is called.
+func valueHelpers(p *Program) map[*ssa.Function]bool {
+	out := map[*ssa.Function]bool{}
+	for f := range pureHelpers(p) {
+		out[f] = true
+	}
+	for _, fn := range p.Funcs {
+		if out[fn] || fn.Parent() != nil || len(fn.Blocks) == 0 || fn.Signature.Results().Len() == 0 || fn.Signature.Recv() != nil {
+			continue
+		}
+		ok := true
+		for _, b := range fn.Blocks {
+			for _, s := range b.Succs {
+				if s.Dominates(b) {
+					ok = false
+				}
+			}
+			for _, in := range b.Instrs {
+				switch x := in.(type) {
+				case *ssa.BinOp, *ssa.Convert, *ssa.ChangeType, *ssa.Phi, *ssa.If, *ssa.Jump, *ssa.Return, *ssa.Extract, *ssa.DebugRef, *ssa.Field, *ssa.Slice:
+				case *ssa.UnOp:
+					if x.Op == token.ARROW || x.Op == token.MUL {
+						ok = false
+					}
+				case *ssa.Call:
+					switch callee := x.Call.Value.(type) {
+					case *ssa.Builtin:
+						if n := callee.Name(); n != "len" && n != "cap" && n != "min" && n != "max" {
+							ok = false
+						}
+					case *ssa.Function:
+						if !isPureExternal(callee) {
+							ok = false
+						}
+					default:
+						ok = false
+					}
+				default:
+					ok = false
+				}
+			}
+		}
+		if ok {
+			out[fn] = true
+		}
+	}
+	return out
+}
